@@ -7,5 +7,5 @@ export CARGO_NET_OFFLINE=true
 python3 tools/extract.py || { echo "setup: translator failed"; exit 1; }
 tools/mkproject.sh || exit 1
 ( cd coq && timeout 3000 make -j16 ) || { echo "setup: coq build failed"; exit 1; }
-( cd harness/libdrv && RUSTFLAGS="--cfg kestrel_verif" CARGO_TARGET_DIR=/verif/.cache/target timeout 1500 cargo build --offline ) || { echo "setup: harness build failed"; exit 1; }
+CARGO_TARGET_DIR=/verif/.cache/target timeout 1800 harness/build.sh || { echo "setup: harness build failed"; exit 1; }
 echo "setup ok"
